@@ -10,7 +10,9 @@
 (* A violation is a pair <<property id, formula name>>.  Known findings    *)
 (* (KF) are named structural predicates; when only such a predicate makes  *)
 (* a formula true the monitor reports <<property id, finding id>> in k.    *)
-(* P = [prog, nt, nr, nv, na, fam, base, exact].                            *)
+(* P = [prog, nt, nr, nv, na, fam, base, exact, rinst]; rinst[r] says      *)
+(* whether resource r is of an instrumented type (the library's own map    *)
+(* resource is not: it cannot report reader/writer use or checker calls).  *)
 (***************************************************************************)
 EXTENDS PieCore
 
@@ -47,6 +49,7 @@ MonInit(P) ==
    staleTD |-> {},
    lastEv |-> "", lastT |-> 0, lastO |-> NONE, lastReqEnd |-> [t |-> 0, o |-> NONE],
    fault |-> {}, boom |-> <<0, 0>>,
+   pstk |-> <<>>,                            \* per executing task: the required task on whose behalf require_scheduled_now pulled it (0: none)
    blog |-> <<>>, builds |-> 0,              \* build_end events since the API call that runs a build started                            \* the events of the 10 kinds EventTracker records, since the last build_start
    cnt |-> [p \in {"C01","C02","C03","C04","C05","C06","C07","C08","C09","C15","C17","C18","C19","C20"} |-> 0]]
 
@@ -157,7 +160,8 @@ Nest(m, e) ==
 OnSessStart(P, m, st, e) ==
   R([m EXCEPT !.sessN = @ + 1, !.inSess = TRUE, !.probe = e.probe, !.res0 = st.res, !.roots = <<>>,
               !.execd = [t \in 1..P.nt |-> 0], !.validated = {}, !.build = "none", !.vstk = <<>>, !.nstk = <<>>,
-              !.errsExp = 0, !.errSeen = FALSE, !.sessOk = TRUE, !.pend = NoPend, !.exp = NoExp, !.sessBU = FALSE, !.k1risk = FALSE], {})
+              !.errsExp = 0, !.errSeen = FALSE, !.sessOk = TRUE, !.pend = NoPend, !.exp = NoExp, !.sessBU = FALSE, !.k1risk = FALSE,
+              !.pstk = <<>>], {})
 
 OnRootCall(P, m, st, e) ==
   R([m EXCEPT !.curRoot = e.t, !.build = "td", !.bexecd = {}, !.builds = 0], {})
@@ -193,7 +197,7 @@ StaleTrigger(m, st) == m.exp.kf
 OnPanic(P, m, st, e) ==
   LET kind == e.kind
       inBU == e.ev = "bu_panic"
-      m1 == [m EXCEPT !.aborted = TRUE, !.vstk = <<>>, !.nstk = <<>>, !.build = "none", !.exp = NoExp,
+      m1 == [m EXCEPT !.aborted = TRUE, !.vstk = <<>>, !.nstk = <<>>, !.pstk = <<>>, !.build = "none", !.exp = NoExp,
                       !.pend = NoPend, !.sessOk = FALSE, !.buOk = FALSE, !.mustSched = 0]
       \* C05/C06/C07: the expected diagnosis was raised
       vExp == IF m.exp.kind # "" /\ m.exp.kind # kind /\ m.exp.own # ""
@@ -241,7 +245,13 @@ OnRequireStart(P, m, st, e) ==
              ELSE V(op.k = "rq" /\ op.x = u /\ op.c = e.c, <<"C17", "event_matches_operation">>)
       onStack == cur # 0 /\ (u = cur \/ u \in Range(st.estk))
       staleCycle == cur # 0 /\ ~onStack /\ Reach(st, u, cur)
-      exp == IF onStack THEN [kind |-> "cyclic", own |-> "C07", kf |-> ""]
+      \* the chain back to u runs through a task that a bottom-up require pulled in on behalf of a task X that has not
+      \* been validated in this session: X's recorded (possibly outdated) dependencies decided that it runs here
+      pos == IF onStack THEN CHOOSE i \in DOMAIN st.estk : st.estk[i] = u ELSE 0
+      viaStalePull == onStack /\ Len(m.pstk) = Len(st.estk)
+                      /\ \E i \in DOMAIN m.pstk : i > pos /\ m.pstk[i] # 0 /\ m.pstk[i] \notin m.validated
+      exp == IF viaStalePull THEN [kind |-> "cyclic", own |-> "", kf |-> "K4_stale_require_cycle"]
+             ELSE IF onStack THEN [kind |-> "cyclic", own |-> "C07", kf |-> ""]
              ELSE IF staleCycle THEN [kind |-> "cyclic", own |-> "", kf |-> "K4_stale_require_cycle"]
              ELSE NoExp
       m1 == [m EXCEPT !.exp = exp, !.vstk = Append(@, [NoFrame EXCEPT !.t = u])]
@@ -284,8 +294,9 @@ OnReadStart(P, m, st, e) ==
              ELSE IF w = cur THEN [kind |-> "hidden", own |-> "", kf |-> ""]
              ELSE [kind |-> "hidden", own |-> "C05", kf |-> IF w \in m.validated THEN "" ELSE "K5_stale_writer_hidden"]
       vOp == IF cur = 0 THEN {} ELSE V(op.k = "rd" /\ op.x = e.r /\ op.c = e.c, <<"C17", "event_matches_operation">>)
-      vT == IF cur = 0 THEN {} ELSE V(m.pend.k = "rd" /\ m.pend.r = e.r /\ m.pend.ph = "open", <<"C09", "read_reader_first">>)
-  IN R([m EXCEPT !.exp = exp], vOp \cup vT)
+      inst == e.r \in 1..P.nr /\ P.rinst[e.r]
+      vT == IF cur = 0 \/ ~inst THEN {} ELSE V(m.pend.k = "rd" /\ m.pend.r = e.r /\ m.pend.ph = "open", <<"C09", "read_reader_first">>)
+  IN R([m EXCEPT !.exp = exp, !.pend = IF inst THEN @ ELSE NoPend], vOp \cup vT)
 
 OnStampReader(P, m, st, e) ==
   LET ok == m.pend.k = "rd" /\ m.pend.id = e.id /\ m.pend.r = e.r /\ m.pend.ph = "open"
@@ -297,6 +308,8 @@ OnStampReader(P, m, st, e) ==
 
 OnReadEnd(P, m, st, e) ==
   IF Cur(st) = 0 THEN R(m, {})
+  ELSE IF e.r \in 1..P.nr /\ ~P.rinst[e.r]
+  THEN R(Bump(m, "C09"), V(e.s = RStamp(e.c, st.res[e.r]), <<"C09", "read_stamp_timely">>))     \* uninstrumented: the stamp value only
   ELSE R([m EXCEPT !.pend.ph = IF @ = "stamped" THEN "ended" ELSE @],
          V(m.pend.k = "rd" /\ m.pend.ph = "stamped" /\ m.pend.s = e.s /\ m.pend.c = e.c /\ m.pend.r = e.r,
            <<"C09", "read_stamp_recorded">>)
@@ -341,6 +354,8 @@ OnWrOpen(P, m, st, e) ==
 OnResSet(P, m, st, e) ==
   LET cur == Cur(st) IN
   IF cur = 0 THEN R(m, {<<"INTEGRITY", "write_outside_task">>})
+  ELSE IF e.r \in 1..P.nr /\ ~P.rinst[e.r]
+  THEN R([m EXCEPT !.pend.ph = "set", !.pend.k = "wr", !.pend.r = e.r], {})
   ELSE R([m EXCEPT !.pend.ph = IF @ = "open" THEN "set" ELSE @],
          V(m.pend.k = "wr" /\ m.pend.r = e.r /\ m.pend.ph \in {"open", "set"}, <<"C09", "write_through_open_writer">>))
 
@@ -355,6 +370,10 @@ OnStampWriter(P, m, st, e) ==
 
 OnWriteEnd(P, m, st, e) ==
   IF Cur(st) = 0 THEN R(m, {})
+  ELSE IF e.r \in 1..P.nr /\ ~P.rinst[e.r]
+  THEN R(Bump([m EXCEPT !.pend = NoPend], "C09"),
+         V(m.pend.k = "wr" /\ m.pend.r = e.r /\ m.pend.ph \in {"set", "validated"}, <<"C09", "write_stamp_after_write">>)
+         \cup V(e.s = RStamp(e.c, st.res[e.r]), <<"C09", "write_stamp_timely">>))
   ELSE R([m EXCEPT !.pend = NoPend],
          V(m.pend.k = "wr" /\ m.pend.ph = "stamped" /\ m.pend.s = e.s /\ m.pend.r = e.r, <<"C09", "write_stamp_recorded">>)
          \cup V(e.r \notin Ress(st) \/ e.s = RStamp(e.c, st.res[e.r]), <<"C09", "write_stamp_timely">>))
@@ -446,7 +465,8 @@ OnExecStart(P, m, st, e) ==
       probeExec == m.probe /\ m.buOk /\ ~isBU /\ P.fam \in WFFams /\ m.fault = {}
       v03 == IF probeExec /\ t \notin m.staleTD THEN {<<"C03", "stale_after_bottom_up">>} ELSE {}
       k03 == IF probeExec /\ t \in m.staleTD THEN {<<"C03", "K1_stale_requirer_after_top_down">>} ELSE {}
-      m1 == [m EXCEPT !.execd[t] = @ + 1, !.bexecd = @ \cup {t},
+      pulledFor == IF isBU /\ f.t # 0 /\ f.t # t THEN f.t ELSE 0
+      m1 == [m EXCEPT !.execd[t] = @ + 1, !.bexecd = @ \cup {t}, !.pstk = Append(@, pulledFor),
                       !.perf[t] = <<>>, !.twochk = @ \ {t},
                       !.curop[t] = [k |-> "", x |-> 0, c |-> "", f |-> 0, acc |-> 0],
                       !.vstk = IF f.t = t THEN Append(Front(@), [f EXCEPT !.ex = TRUE]) ELSE @]
@@ -506,7 +526,7 @@ OnExecEnd(P, m, st, st2, e) ==
       v08 == IF exact THEN {} ELSE {<<"C08", "record_differs_from_performed">>}
       k08 == IF exact /\ ~complete /\ t \in m.twochk THEN {<<"C08", "K2_two_checkers_one_target">>} ELSE {}
       anc == IF t \in Tasks(st2) THEN Ancestors(st2, t) ELSE {}
-      m1 == [m EXCEPT !.validated = @ \cup {t},
+      m1 == [m EXCEPT !.validated = @ \cup {t}, !.pstk = IF @ = <<>> THEN @ ELSE Front(@),
                       !.staleTD = IF m.build = "td" THEN (@ \cup anc) \ {t} ELSE @ \ {t}]
   IN RK(Bump(m1, "C17"), vF \cup v08, k08)
 
